@@ -174,3 +174,13 @@ _p('C20', secs=(30, 480), runs=(100000, 10000000), mix=(4, 8),
     assumptions=_SESS_ASSUME + ['HeartBtInt 30 s and silences below 3 s: no supervision timeouts inside a run', 'attribution of a termination to a sequence reason is by elimination: the reference counterparty never logs out, never sends wrong CompIDs or times, so any termination while the link is up is one; the Logout text is recorded as corroboration'],
     level_text='seeded exploration of loss/reconnect histories; oracle: the session never ends while the link is up, every application message the counterparty numbered is delivered at least once by the end of the final fault-free stretch (bounded liveness), the session\'s expected number equals the counterparty\'s next number at the end',
     level_note='trusted: the reference counterparty model, harness codec; sampled histories')
+
+_p('C21', secs=(40, 600), runs=(100000, 10000000), mix=(4, 8),
+    title='Two fix8 sessions deliver every application message across failures',
+    technique='deterministic simulation with fault injection: a real initiator and a real acceptor (Session + Connection + reader threads + Timer + FilePersister on the simulated disk each) joined by a simulated TCP link (latency, jitter, short reads/writes) under the seeded scheduler; faults: link drops with bytes in flight lost, restarts of either process between operations; reconnect glue as in ReliableClientSession / SessionInstance; bounded-liveness final phase',
+    rule='one evaluation = one seeded schedule of 2-16 (thorough 2-36) ops: application send on either side, link drop (right away with bytes in flight, or after delivery), restart of the initiator or acceptor process, silence; after every fault the pair reconnects; final fault-free phase of at most 5 simulated seconds; non-trivial = at least 2 application messages and one fault; distinct = distinct event-log hash',
+    real=['two complete fix8 sessions: Session, ClientConnection/ServerConnection, FIXReader threads, FIXWriter, Timer threads, FilePersister on simfs, message codec', 'logon / resend / gap-fill / sequence-reset handling on both sides (each side is the other\'s counterparty)'],
+    stub=['TCP: SimSock pair + Link (FIFO per direction, latency+jitter, drop = EOF on both ends, bytes in flight lost)', 'the few lines of application glue of ReliableClientSession::operator() and SessionInstance are reproduced by the harness (new connection per attempt, new acceptor session per accepted connection, stores reopened)', 'application: recording handle_application calling enforce()'],
+    assumptions=_SESS_ASSUME + ['HeartBtInt 30 s: no supervision timeouts inside a run', 'application sends are only issued while both sessions are established (a real application gets false from send() otherwise)', 'restarts happen between operations (as the statement says), drops at any moment'],
+    level_text='seeded exploration of send/drop/restart schedules; oracle: every message whose send() succeeded is delivered to the peer application at least once by the end of the final phase, first deliveries in send order, every re-delivery flagged PossDup, both sessions continuous within 3 simulated seconds after every reconnect, no session ends without an injected fault',
+    level_note='trusted: link model, harness glue; one known finding (fault during resend recovery) is listed in known_findings.json and suppressed by its narrow signature only')
